@@ -30,6 +30,11 @@ def attributed(spec):
         if var is not ds:
             var.attributes["units"] = "u%d" % i
             var.attributes["valid_range"] = [0, i + 1]
+            if i % 2:
+                # Byte-typed and bytes-valued attributes (numpy uint8 scalar / array, Python bytes)
+                var.attributes["flag"] = np.uint8(200 + i % 50)
+                var.attributes["mask"] = np.array([1, 128, 255], dtype="u1")
+                var.attributes["raw"] = b"ab"
     return ds
 
 
